@@ -234,6 +234,137 @@ pub fn need_of(model: &Model, op: &Op, session_user: u32) -> Option<Need> {
 }
 
 // ------------------------------------------------------------------------------------------------
+// rule-level probes on the real Permissioner: evaluation never panics; more permissions never deny
+// ------------------------------------------------------------------------------------------------
+
+type Rule = (&'static str, Box<dyn Fn(&server::streaming::users::permissioner::Permissioner, u32) -> Result<(), IggyError>>);
+
+fn rules(stream: u32, topic: u32) -> Vec<Rule> {
+    vec![
+        ("get_stream", Box::new(move |p, u| p.get_stream(u, stream))),
+        ("get_streams", Box::new(move |p, u| p.get_streams(u))),
+        ("create_stream", Box::new(move |p, u| p.create_stream(u))),
+        ("update_stream", Box::new(move |p, u| p.update_stream(u, stream))),
+        ("delete_stream", Box::new(move |p, u| p.delete_stream(u, stream))),
+        ("purge_stream", Box::new(move |p, u| p.purge_stream(u, stream))),
+        ("get_topic", Box::new(move |p, u| p.get_topic(u, stream, topic))),
+        ("get_topics", Box::new(move |p, u| p.get_topics(u, stream))),
+        ("create_topic", Box::new(move |p, u| p.create_topic(u, stream))),
+        ("update_topic", Box::new(move |p, u| p.update_topic(u, stream, topic))),
+        ("delete_topic", Box::new(move |p, u| p.delete_topic(u, stream, topic))),
+        ("purge_topic", Box::new(move |p, u| p.purge_topic(u, stream, topic))),
+        ("create_partitions", Box::new(move |p, u| p.create_partitions(u, stream, topic))),
+        ("delete_partitions", Box::new(move |p, u| p.delete_partitions(u, stream, topic))),
+        ("poll_messages", Box::new(move |p, u| p.poll_messages(u, stream, topic))),
+        ("append_messages", Box::new(move |p, u| p.append_messages(u, stream, topic))),
+        ("create_consumer_group", Box::new(move |p, u| p.create_consumer_group(u, stream, topic))),
+        ("delete_consumer_group", Box::new(move |p, u| p.delete_consumer_group(u, stream, topic))),
+        ("get_consumer_group", Box::new(move |p, u| p.get_consumer_group(u, stream, topic))),
+        ("get_consumer_groups", Box::new(move |p, u| p.get_consumer_groups(u, stream, topic))),
+        ("join_consumer_group", Box::new(move |p, u| p.join_consumer_group(u, stream, topic))),
+        ("leave_consumer_group", Box::new(move |p, u| p.leave_consumer_group(u, stream, topic))),
+        ("get_consumer_offset", Box::new(move |p, u| p.get_consumer_offset(u, stream, topic))),
+        ("store_consumer_offset", Box::new(move |p, u| p.store_consumer_offset(u, stream, topic))),
+        ("delete_consumer_offset", Box::new(move |p, u| p.delete_consumer_offset(u, stream, topic))),
+        ("get_stats", Box::new(move |p, u| p.get_stats(u))),
+        ("get_clients", Box::new(move |p, u| p.get_clients(u))),
+        ("get_client", Box::new(move |p, u| p.get_client(u))),
+        ("get_user", Box::new(move |p, u| p.get_user(u))),
+        ("get_users", Box::new(move |p, u| p.get_users(u))),
+        ("create_user", Box::new(move |p, u| p.create_user(u))),
+        ("delete_user", Box::new(move |p, u| p.delete_user(u))),
+        ("update_user", Box::new(move |p, u| p.update_user(u))),
+        ("update_permissions", Box::new(move |p, u| p.update_permissions(u))),
+        ("change_password", Box::new(move |p, u| p.change_password(u))),
+    ]
+}
+
+/// A superset of `a`: some more flags switched on, some more records added (seeded).
+fn superset(a: &PermSpec, rng: &mut crate::rng::Rng, streams: &[u32], topics: &[u32]) -> PermSpec {
+    let mut b = a.clone();
+    for f in b.global.iter_mut() {
+        if !*f && rng.chance(0.2) {
+            *f = true;
+        }
+    }
+    let mut records = b.streams.clone().unwrap_or_default();
+    for r in records.iter_mut() {
+        for f in r.1.iter_mut() {
+            if !*f && rng.chance(0.2) {
+                *f = true;
+            }
+        }
+        if rng.chance(0.3) {
+            let mut table = r.2.clone().unwrap_or_default();
+            for t in table.iter_mut() {
+                for f in t.1.iter_mut() {
+                    if !*f && rng.chance(0.3) {
+                        *f = true;
+                    }
+                }
+            }
+            if let Some(t) = topics.first() {
+                if !table.iter().any(|x| x.0 == *t) && rng.chance(0.5) {
+                    table.push((*t, [rng.chance(0.3), rng.chance(0.3), rng.chance(0.3), rng.chance(0.3)]));
+                }
+            }
+            if !table.is_empty() || r.2.is_some() {
+                r.2 = Some(table);
+            }
+        }
+    }
+    for s in streams {
+        if !records.iter().any(|x| x.0 == *s) && rng.chance(0.4) {
+            // a granular record (possibly all false, possibly without a topic table) is still "more"
+            records.push((*s, [rng.chance(0.2), rng.chance(0.2), rng.chance(0.2), rng.chance(0.2), rng.chance(0.2), rng.chance(0.2)], if rng.chance(0.5) { None } else { Some(vec![]) }));
+        }
+    }
+    if !records.is_empty() || b.streams.is_some() {
+        b.streams = Some(records);
+    }
+    b
+}
+
+/// Evaluates every rule of the real `Permissioner` for record A and a superset B.
+pub fn probe_rules(h: &mut Harness, a: &Option<PermSpec>) {
+    use server::streaming::users::permissioner::Permissioner;
+    if !h.on("C09") {
+        return;
+    }
+    let Some(a) = a else { return };
+    let streams: Vec<u32> = h.model.streams.keys().copied().collect();
+    let topics: Vec<u32> = h.model.streams.values().flat_map(|s| s.topics.keys().copied()).collect();
+    let mut rng = crate::rng::Rng::new(h.sim.steps() ^ 0x9e37);
+    let b = superset(a, &mut rng, &streams, &topics);
+    let mut pa = Permissioner::default();
+    pa.init_permissions_for_user(100, Some(to_sdk_permissions(a)));
+    let mut pb = Permissioner::default();
+    pb.init_permissions_for_user(100, Some(to_sdk_permissions(&b)));
+    let mut targets: Vec<(u32, u32)> = Vec::new();
+    for s in streams.iter().chain([77u32].iter()) {
+        for t in topics.iter().take(2).chain([55u32].iter()) {
+            targets.push((*s, *t));
+        }
+    }
+    for (stream, topic) in targets.into_iter().take(6) {
+        for (name, rule) in rules(stream, topic) {
+            let ra = std::panic::catch_unwind(std::panic::AssertUnwindSafe(|| rule(&pa, 100)));
+            let rb = std::panic::catch_unwind(std::panic::AssertUnwindSafe(|| rule(&pb, 100)));
+            h.stats.probe("permission_rule_evaluated");
+            let canon = |p: &PermSpec| crate::snapshot::canon_permissions(&Some(to_sdk_permissions(p)));
+            match (&ra, &rb) {
+                (Err(_), _) => h.violate("C09", "evaluation_never_panics", format!("rule_panics:{name}"), format!("rule {name}({stream},{topic}) panics for record {}", canon(a))),
+                (_, Err(_)) => h.violate("C09", "evaluation_never_panics", format!("rule_panics:{name}"), format!("rule {name}({stream},{topic}) panics for record {}", canon(&b))),
+                (Ok(Ok(())), Ok(Err(_))) => h.violate("C09", "more_permissions_never_deny", format!("non_monotone:{name}"), format!("rule {name}({stream},{topic}) allows record {} but denies its superset {}", canon(a), canon(&b))),
+                _ => {}
+            }
+        }
+    }
+    // the panic hook recorded the caught panics: they are accounted for above
+    let _ = h.sim.take_panics();
+}
+
+// ------------------------------------------------------------------------------------------------
 // operations
 // ------------------------------------------------------------------------------------------------
 
@@ -274,7 +405,7 @@ pub async fn step_auth(h: &mut Harness, op: &Op) {
         Op::GetUser { c, user } => {
             if authed(h, *c) {
                 let result = h.clients[*c].as_ref().unwrap().get_user(&user.to_identifier()).await;
-                if h.perm_gate("get_user", result.is_ok(), result.as_ref().err()) {
+                if h.perm_gate_found("get_user", matches!(result, Ok(Some(_))), result.is_ok(), result.as_ref().err()) {
                     let uid = h.model.user_id(user);
                     match (result, uid) {
                         (Ok(Some(d)), Some(uid)) => {
@@ -340,6 +471,11 @@ async fn get_me(h: &mut Harness, c: usize) {
             h.model.sessions[c].client_id = Some(me.client_id);
         }
         (Ok(me), _) => h.violate("C10", "logged_out_is_unauthenticated", "get_me_after_logout", format!("connection {c} is not authenticated but get_me answered {:?}", me.user_id)),
+        (Err(IggyError::Unauthorized), u) if u > 1 => {
+            // the server asks for the permission to read servers; the documentation is silent about get_me
+            let _ = u;
+            h.stats.probe("get_me_refused_without_read_servers");
+        }
         (Err(_), u) if u != 0 => {
             let detail = format!("get_me of authenticated connection {c} (user {u}) failed: {:?}", result.as_ref().err());
             h.violate("C06", "valid_command_fails", "get_me", detail)
@@ -352,6 +488,7 @@ async fn create_user(h: &mut Harness, c: usize, name: &str, password: &str, acti
     if !authed(h, c) {
         return;
     }
+    probe_rules(h, perms);
     let status = if active { UserStatus::Active } else { UserStatus::Inactive };
     let result = h.clients[c].as_ref().unwrap().create_user(name, password, status, perms.as_ref().map(to_sdk_permissions)).await;
     if !h.perm_gate("create_user", result.is_ok(), result.as_ref().err()) {
@@ -452,6 +589,7 @@ async fn update_permissions(h: &mut Harness, c: usize, user: &IdRef, perms: &Opt
     if !authed(h, c) {
         return;
     }
+    probe_rules(h, perms);
     let result = h.clients[c].as_ref().unwrap().update_permissions(&user.to_identifier(), perms.as_ref().map(to_sdk_permissions)).await;
     let uid = h.model.user_id(user);
     if uid == Some(1) {
